@@ -3,11 +3,12 @@
 # records which obligations raise a VIOLATION, reverts.  Output: /verif/seeded/MATRIX.tsv   (works on its own worktree /tmp/wt_matrix with VERIF_REPO/VERIF_OUT, so /repo and /verif/evidence are not touched)
 cd /verif
 WT=/tmp/wt_matrix; git -C /repo worktree remove --force $WT 2>/dev/null; git -C /repo worktree add -q --detach $WT HEAD || exit 2
-export VERIF_REPO=$WT VERIF_BUILD=/tmp/build_matrix VERIF_OUT=/tmp/out_matrix VERIF_JOBS=8
+export VERIF_REPO=$WT VERIF_BUILD=/tmp/build_matrix VERIF_OUT=/tmp/out_matrix VERIF_JOBS=${MATRIX_JOBS:-8}
 declare -A EXTRA=( [C09]="C07" [C10]="C08 C11" [C16]="C16 C04" [C18]="C18 C01" [C19]="C19 C11 C08" [C12]="C12 C19" [C02]="C02 C12" [C08]="C08 C06" [C04]="C04 C05" [C05]="C05" [C06]="C06" )
-OUT=/verif/seeded/MATRIX.tsv; : > $OUT
+OUT=/verif/seeded/MATRIX.tsv; [ -n "$RESUME" ] || : > $OUT; sed -i "/^done$/d" $OUT
 for d in $(ls -d seeded/C*-* | sort -V); do
   s=$(basename $d); prop=${s%-*}
+  grep -q "^$s	" $OUT && continue
   props="${EXTRA[$prop]:-$prop}"
   cd $WT; git diff --quiet || { echo "worktree dirty"; exit 2; }
   if ! git apply /verif/$d/patch.diff 2>/dev/null && ! git apply --3way /verif/$d/patch.diff 2>/dev/null; then git reset -q --hard HEAD; printf "%s\tNOAPPLY\t-\n" $s >> $OUT; continue; fi
